@@ -10,5 +10,5 @@ if status == 'fixed':
     e["what"] = "fixed: property=%s %s %s" % (prop, commit, what)
 else:
     e["what"] = what
-d['findings'] = [x for x in d['findings'] if not (x['property'] == prop and x['sig'] == sig)] + [e]
+d['findings'] = [x for x in d['findings'] if not (x['property'] == prop and x['sig'] == sig and x.get('commit') == e.get('commit'))] + [e]
 json.dump(d, open(p, 'w'), indent=1); open(p, 'a').write('\n')
